@@ -39,6 +39,8 @@ type Violation struct {
 	Msg   string            `json:"msg"`
 	Model map[string]uint64 `json:"model"`
 	Known []string          `json:"known,omitempty"` // ids of known-finding regions containing this model
+	// TokenDep: the model sets an input byte equal to a byte of an abstract hash value (see PathResult.TokenDep)
+	TokenDep bool `json:"token_dep,omitempty"`
 }
 
 type Observation struct {
@@ -73,6 +75,9 @@ type PathResult struct {
 	QCross     int64             `json:"qcross"`
 	SolverNs   int64             `json:"solver_ns"`
 	Sched      []int             `json:"sched,omitempty"`
+	// TokenDep: the final model makes an input byte equal to a byte of an abstract hash value
+	// (token); such a model does not transfer to the real SHA3 and is not replayed natively
+	TokenDep bool `json:"token_dep,omitempty"`
 }
 
 // pathEnd is the private panic payload that ends a path; no target recover may swallow it.
@@ -82,7 +87,8 @@ type pathEnd struct {
 }
 
 type hashEntry struct {
-	in  []value // bytes (uint8 or sym)
+	in  []value // bytes (uint8 or sym); built on demand for an all-concrete input
+	cb  []byte  // the input when it was all concrete (out is then the real SHA3, or the output of an equal earlier input)
 	out [32]byte
 }
 
@@ -100,8 +106,16 @@ type pathState struct {
 	nameCount map[string]int
 	inputs    []string
 
-	hashes   []hashEntry
-	tokenCtr int
+	hashes    []hashEntry
+	hashByLen map[int][]int       // input length -> indices into hashes
+	concHash  map[string][32]byte // all-concrete input -> output
+	symHashes int                 // applications to inputs with symbolic bytes that got a token
+	tokenCtr  int
+	// abstract hash values of this path: tokens, and real SHA3 values of concrete inputs that
+	// embed one (DESIGN §3.1 "model transfer"); tokenEqs are the byte-sequence equalities in
+	// which a symbolic byte was compared with a byte of such a value
+	absHashes map[[32]byte]bool
+	tokenEqs  []*smt.Term
 
 	violations []Violation
 	violated   map[string]bool
@@ -390,7 +404,7 @@ func (ps *pathState) assert(label string, c *smt.Term, site string) {
 			return
 		}
 		ps.violated[key] = true
-		ps.violations = append(ps.violations, Violation{Label: label, Kind: "assert", Site: site, Model: m, Known: known})
+		ps.violations = append(ps.violations, Violation{Label: label, Kind: "assert", Site: site, Model: m, Known: known, TokenDep: ps.tokenDepUnder(smt.NewEvaluator(m))})
 	}
 	// 1. violation outside known regions?
 	found := false
@@ -461,17 +475,29 @@ func (ps *pathState) recordPanic(label, msg, site string, known []string) {
 		return
 	}
 	ps.violated[key] = true
-	ps.violations = append(ps.violations, Violation{Label: label, Kind: "panic", Site: site, Msg: msg, Model: ps.snapshotModel(), Known: known})
+	ps.violations = append(ps.violations, Violation{Label: label, Kind: "panic", Site: site, Msg: msg, Model: ps.snapshotModel(), Known: known, TokenDep: ps.tokenDepUnder(ps.eval)})
+}
+
+// tokenDepUnder reports whether the model behind ev makes a recorded equality between an input
+// byte and an abstract hash byte true (DESIGN §3.1 "model transfer").
+func (ps *pathState) tokenDepUnder(ev *smt.Evaluator) bool {
+	for _, t := range ps.tokenEqs {
+		if ev.Eval(t) == 1 {
+			return true
+		}
+	}
+	return false
 }
 
 func (ps *pathState) result(outcome, detail string) *PathResult {
 	r := &PathResult{Outcome: outcome, Detail: detail, Decisions: len(ps.trace), Trace: ps.trace,
 		Model: ps.snapshotModel(), New: ps.newItems, Violations: ps.violations, Obs: ps.obs,
-		Instrs: ps.instrs, Asserts: ps.asserts, AssertQ: ps.assertQ, Hashes: len(ps.hashes),
+		Instrs: ps.instrs, Asserts: ps.asserts, AssertQ: ps.assertQ, Hashes: ps.symHashes,
 		Inputs: ps.inputs, Funcs: ps.funcs, Unknowns: ps.unknowns}
 	for c := range ps.covers {
 		r.Covers = append(r.Covers, c)
 	}
 	sort.Strings(r.Covers)
+	r.TokenDep = ps.tokenDepUnder(ps.eval)
 	return r
 }
